@@ -154,10 +154,31 @@ func main() {
 	solverTime := 0.0
 	funcs := map[string]bool{}
 	vacuous := []string{}
+	retCov, retReach := map[string]int{}, map[string]int{}
+	callBefore, callAfter := map[string]string{}, map[string]string{}
+	defer func() {}()
 	for _, ob := range e.obligations {
 		solverTime += ob.Time
 		funcs[ob.Func] = true
 		if ob.Cover {
+			if strings.HasSuffix(ob.Name, "/cover-return") {
+				if *verbose {
+					fmt.Printf("  cover %s %s path=%s\n", ob.Status, ob.Name, ob.Path)
+				}
+				retCov[ob.Name]++
+				if ob.Status != "unsat" {
+					retReach[ob.Name]++
+				}
+				continue
+			}
+			if strings.HasSuffix(ob.Name, "/before") {
+				callBefore[strings.TrimSuffix(ob.Name, "/before")] = ob.Status
+				continue
+			}
+			if strings.HasSuffix(ob.Name, "/after") {
+				callAfter[strings.TrimSuffix(ob.Name, "/after")] = ob.Status
+				continue
+			}
 			if ob.Status == "unsat" {
 				vacuous = append(vacuous, ob.Name)
 			}
@@ -204,8 +225,31 @@ func main() {
 	violations := 0
 	kf := loadKnown(*known)
 	exit := 0
+	{
+		var names []string
+		for n := range retCov {
+			names = append(names, n)
+		}
+		sort.Strings(names)
+		for _, n := range names {
+			if retReach[n] == 0 {
+				vacuous = append(vacuous, n)
+			}
+		}
+		names = nil
+		for n := range callAfter {
+			names = append(names, n)
+		}
+		sort.Strings(names)
+		for _, n := range names {
+			// reachable (sat) before the call, unreachable (unsat) after assuming the callee's contract
+			if callAfter[n] == "unsat" && callBefore[n] != "unsat" {
+				vacuous = append(vacuous, n)
+			}
+		}
+	}
 	if len(vacuous) > 0 {
-		fmt.Printf("ENGINE-ERROR: vacuous preconditions (contradictory requires/globals): %v\n", vacuous)
+		fmt.Printf("ENGINE-ERROR: vacuous proof (contradictory requires/globals/assumed contracts: no return is reachable): %v\n", vacuous)
 		exit = 2
 	}
 	for _, ob := range failed {
@@ -236,6 +280,9 @@ func main() {
 			}
 		}
 		exit = 1
+	}
+	if len(vacuous) > 0 {
+		exit = 2 // nothing a vacuous run reports can be trusted
 	}
 	if nContracts == 0 || (len(jobs) > 0 && nTotal == 0) {
 		fmt.Println("ENGINE-ERROR: no obligations were generated")
